@@ -15,6 +15,8 @@ pub trait ByteValued: Sized + Copy {
     spec fn ssize() -> nat;
     spec fn sdecode(s: Seq<u8>) -> Self;
     fn as_slice(&self) -> (r: &[u8]) ensures r@ == self.sbytes(), r@.len() == Self::ssize();
+    // vm_memory::ByteValued::from_slice: reinterpret a slice of exactly size_of bytes
+    fn from_slice(bytes: &[u8]) -> (r: Option<&Self>) ensures r is Some <==> bytes@.len() == Self::ssize(), r is Some ==> r->Some_0.sbytes() == bytes@;
 }
 pub broadcast axiom fn axiom_sbytes_len<T: ByteValued>(x: T)
     ensures #[trigger] x.sbytes().len() == T::ssize();
@@ -28,6 +30,21 @@ impl ByteValued for u8 {
     open spec fn ssize() -> nat { 1 }
     uninterp spec fn sdecode(s: Seq<u8>) -> Self;
     #[verifier::external_body] fn as_slice(&self) -> (r: &[u8]) { unimplemented!() }
+    #[verifier::external_body] fn from_slice(bytes: &[u8]) -> (r: Option<&Self>) { unimplemented!() }
+}
+impl ByteValued for [u8; 8] {
+    open spec fn sbytes(&self) -> Seq<u8> { self@ }
+    open spec fn ssize() -> nat { 8 }
+    uninterp spec fn sdecode(s: Seq<u8>) -> Self;
+    #[verifier::external_body] fn as_slice(&self) -> (r: &[u8]) { unimplemented!() }
+    #[verifier::external_body] fn from_slice(bytes: &[u8]) -> (r: Option<&Self>) { unimplemented!() }
+}
+impl ByteValued for [u8; 24] {
+    open spec fn sbytes(&self) -> Seq<u8> { self@ }
+    open spec fn ssize() -> nat { 24 }
+    uninterp spec fn sdecode(s: Seq<u8>) -> Self;
+    #[verifier::external_body] fn as_slice(&self) -> (r: &[u8]) { unimplemented!() }
+    #[verifier::external_body] fn from_slice(bytes: &[u8]) -> (r: Option<&Self>) { unimplemented!() }
 }
 
 pub struct IoSlice<'a> { pub b: &'a [u8] }
